@@ -79,6 +79,19 @@ Definition parse_pyint (s : string) : option Z :=
   | t => digits_acc t 0 false
   end.
 
+(* int(s) WITHOUT a preceding str.strip(): CPython's int() skips a narrower class of characters than str.strip() does —
+   the ASCII C-locale spaces and (only when the string is not pure ASCII) the non-ASCII Unicode spaces, mapped to ' ';
+   the ASCII separators FS/GS/RS/US (28-31), which str.strip() and the regex \s do strip, are NOT accepted: int('1\x1f')
+   raises ValueError.  Latin-1: 9-13, 32, 0x85, 0xA0.  (Checked against the running CPython on every run: case kind 'int'.) *)
+Definition int_space_codes : list nat := [9; 10; 11; 12; 13; 32; 133; 160]%nat.
+Definition is_int_space : ascii -> bool := code_in int_space_codes.
+Definition parse_int_raw (s : string) : option Z :=
+  match strip is_int_space s with
+  | String "+" r => digits_acc r 0 false
+  | String "-" r => option_map Z.opp (digits_acc r 0 false)
+  | t => digits_acc t 0 false
+  end.
+
 Definition Z_to_string (z : Z) : string := NilZero.string_of_int (Z.to_int z).   (* str(int) *)
 
 (* ------------------------------------------------------------------ labels and locations *)
@@ -163,7 +176,7 @@ Section Resolve.
     else
       let period := strip (fun c => Ascii.eqb c ch_tick) (strip is_py_space lbl) in
       if has (LStr period) then locate (LStr period)
-      else match parse_pyint period with
+      else match parse_int_raw period with                 (* int(period): no str.strip() here *)
            | None => Raise KeyError
            | Some z => if has (LInt z) then locate (LInt z) else Raise KeyError
            end.
@@ -345,11 +358,22 @@ Definition tagged (origin : string) (names : list string) : ns string := map (fu
 Definition name_lookup (text : string) (d : ns string) : pyres string :=      (* pyeval for a bare-name expression *)
   match ns_get string d text with Some v => PVal v | None => PNameError text end.
 
+(* CPython's name resolution for a bare-name expression as eval() really calls it: eval(expression, None, locals_) —
+   globals=None means "the globals of the calling frame", i.e. the module globals of fsic/core/containers.py (np, copy, re,
+   warnings, _builtins, VectorContainer, ...) and, behind them, Python's own builtins (abs, len, ...): `outer`.
+   A name found there is NOT a NameError (kept finding: module-global-visible). *)
+Definition name_lookup_outer (outer : ns string) (text : string) (d : ns string) : pyres string :=
+  match ns_get string d text with
+  | Some v => PVal v
+  | None => match ns_get string outer text with Some v => PVal v | None => PNameError text end
+  end.
+
 (* eval(name, locals=..., builtins=...) on a container with variables `var_names`, package table `tbl_names`:
-   dict 0 = the package table, dict 1 = the caller's `builtins=` dict when one is passed *)
-Definition ns_case (tbl_names var_names : list string) (locals : option (list string)) (bi : option (list string))
+   dict 0 = the package table, dict 1 = the caller's `builtins=` dict when one is passed;
+   `outer_names` = the module-level / Python-builtin names visible to the expression *)
+Definition ns_case (tbl_names outer_names var_names : list string) (locals : option (list string)) (bi : option (list string))
            (name : string) : (dheap string * ns string) * eres string :=
   let tbl := tagged "T" tbl_names in
   let dh := match bi with None => [tbl] | Some b => [tbl; tagged "B" b] end in
-  eval_M string (fun _ => false) (fun _ => Raise KeyError) name_lookup dh 0%nat (tagged "V" var_names) name
+  eval_M string (fun _ => false) (fun _ => Raise KeyError) (name_lookup_outer (tagged "G" outer_names)) dh 0%nat (tagged "V" var_names) name
          (option_map (tagged "L") locals) (match bi with None => None | Some _ => Some 1%nat end).
